@@ -25,6 +25,13 @@ Theorem C15_last_match_wins : forall rs c t,
 Proof. exact (good_last_match_wins src_cfg C15_source_configuration_good). Qed.
 Print Assumptions C15_last_match_wins.
 
+(* the two loops the translator accepts for filter() are the same decision: walking the rule list from its end
+   and leaving at the first matching rule = the forward loop in which every matching rule overrides *)
+Theorem C15_backward_loop_is_last_match_wins : forall d la st rs c t,
+  decide LastFromBack d la st rs c t = decide LastWins d la st rs c t.
+Proof. exact (decide_canon LastFromBack). Qed.
+Print Assumptions C15_backward_loop_is_last_match_wins.
+
 (* a rule matches iff its pattern globs the category and it is untyped or of the message's type *)
 Theorem C15_rule_matches_meaning : forall r c t,
   rule_matches (matcher src_cfg) (star src_cfg) r c t = true <->
@@ -253,6 +260,18 @@ Definition ex_history : list query :=
     {| q_addr := 7; q_cat := [110;101;116;46;100;110;115]; q_type := Debug |};
     {| q_addr := 7; q_cat := [110;101;116;46;100;110;115]; q_type := Warning |};
     {| q_addr := 7; q_cat := [110;101;116;46;102;116;112]; q_type := Warning |} ].
+(* the configuration check accepts the backward loop, and neither a first-match loop nor another default *)
+Definition with_shape (c : cat_cfg) (sh : loop_shape) : cat_cfg :=
+  {| sep_from := sep_from c; sep_to := sep_to c; split_ch := split_ch c; suffixes := suffixes c; values := values c;
+     star := star c; matcher := matcher c; default_verdict := default_verdict c; shape := sh |}.
+Example C15_configuration_check_nonvacuous :
+  cfg_goodb (with_shape std_cfg LastFromBack) = true /\ cfg_goodb (with_shape std_cfg FirstWins) = false
+  /\ category_filter (with_shape std_cfg LastFromBack) ex_rules ex_net_http Debug = false
+  /\ category_filter (with_shape std_cfg FirstWins) ex_rules ex_net_http Debug = false
+  /\ category_filter (with_shape std_cfg FirstWins) ex_rules ex_net_http Info = false   (* first match "*=false" *)
+  /\ category_filter (with_shape std_cfg LastFromBack) ex_rules ex_net_http Info = true.
+Proof. vm_compute. repeat split; reflexivity. Qed.
+
 Example C15_history_nonvacuous :
   object_answers src_cfg ex_rules2 ex_history = [false; true; false; true; false]
   /\ prop_c15_seq_b ex_rules2 ex_history [false; true; false; true; false] = true
